@@ -45,9 +45,11 @@ class Oracle:
     def reset(self, cfg):
         self.cfg = cfg
         self.cfg_i = None
-        self.tokens = {}     # name -> (op index, op)
+        self.tokens = {}     # name -> (op index, op, flow)
         self.accepted = {}   # nonce -> list of (op index, t, vp)
-        self.advances = []
+        self.sessions = {}   # state -> {"spec", "t" (last put), "fulfilled", "nonces": {name: put time}, "i"}
+        self.nonce_used = set()
+        self.codes = {}      # code name -> {"session", "t", "redeemed", "i"}
 
     def policy(self, scope):
         for p in self.cfg.get("policy", []):
@@ -127,6 +129,110 @@ class Oracle:
         for vp in (op.get("vps") or []):
             self.accepted.setdefault(vp.get("nonce"), []).append((i, t, vp))
 
+    def judge_authresp(self, i, op, line):
+        if not line.startswith("200 "):
+            return
+        t = op["t"]
+        flow = self.f["oauthFlowTimeoutMs"] * 1000000
+        why = []
+        sess = self.sessions.get(op.get("state"))
+        if sess is None:
+            self.bad("authresp-accepted-without-session", f"op {i}: 200 for state {op.get('state')!r} that no authorization request created", [i])
+            return
+        spec = sess["spec"]
+        if t > sess["t"] + flow:
+            why.append("session-expired")
+        if op.get("subject") != spec["own_subject"]:
+            why.append("other-tenant")
+        if not op.get("vp_token") or not op.get("envelope_ok") or not op.get("submission") or not op.get("submission_ok"):
+            why.append("malformed-request")
+        issuer = self.cfg["publicURL"] + "/oauth2/" + spec["own_subject"]
+        vps = op.get("vps") or []
+        if not vps:
+            why.append("no-presentation")
+        signers, challenges = set(), set()
+        for vp in vps:
+            if not vp.get("verifies") or not self.vp_time_ok(vp, t):
+                why.append("presentation-does-not-verify")
+            if issuer not in (vp.get("aud") or []):
+                why.append("audience")
+            sg = vp.get("signer")
+            signers.add(sg)
+            if sg is None or any(x != sg for x in (vp.get("subjects") or [])):
+                why.append("signer-is-not-subject-of-all-credentials")
+            challenges.add(vp.get("challenge") or vp.get("nonce") or "")
+        if len(signers) > 1:
+            why.append("presentations-of-different-subjects")
+        if len(challenges) != 1 or "" in challenges:
+            why.append("nonce-missing-or-not-unique")
+        else:
+            n = next(iter(challenges))
+            if n not in sess["nonces"]:
+                why.append("nonce-not-bound-to-this-state")
+            elif t > sess["nonces"][n] + flow:
+                why.append("nonce-expired")
+            if (op.get("state"), n) in self.nonce_used:
+                why.append("nonce-used-before")
+            self.nonce_used.add((op.get("state"), n))
+        target = [d for d in spec["required"] if d["id"] == op.get("def_id")]
+        if not target:
+            why.append("definition-not-required")
+        else:
+            if target[0]["key"] not in (op.get("pex") or []):
+                why.append("submission-does-not-validate")
+            if op.get("def_id") in sess["fulfilled"]:
+                why.append("definition-already-fulfilled")
+        done = set(sess["fulfilled"]) | {op.get("def_id")}
+        complete = all(d["id"] in done for d in spec["required"])
+        if line.startswith("200 code=") and not complete:
+            self.bad("authorization-code-issued-with-unfulfilled-definition", f"op {i}: code issued, fulfilled {sorted(done)} of {[d['id'] for d in spec['required']]}", [sess["i"], i])
+        if line.startswith("200 next=") and complete:
+            why.append("no-code-although-complete")
+        for wname in sorted(set(why)):
+            self.bad("authresp-accepted-despite:" + wname, f"op {i}: {line[:60]} for an authorization response with defect {wname} ({op.get('defects')})", [sess["i"], i])
+        sess["fulfilled"].append(op.get("def_id"))
+        sess["t"] = t
+        sess.setdefault("trail", []).append(i)
+        if line.startswith("200 code="):
+            name = line.split()[1].split("=", 1)[1]
+            self.codes[name] = {"session": sess, "t": t, "redeemed": False, "i": i}
+        else:
+            sess["nonces"][line.split()[2].split("=", 1)[1]] = t
+
+    def judge_code(self, i, op, line):
+        if not line.startswith("200 "):
+            return
+        import hashlib, base64
+        t = op["t"]
+        flow = self.f["oauthFlowTimeoutMs"] * 1000000
+        c = self.codes.get(op.get("code"))
+        if c is None:
+            self.bad("token-for-unknown-authorization-code", f"op {i}: 200 for code {op.get('code')!r} that was never issued", [i])
+            return
+        spec = c["session"]["spec"]
+        why = []
+        if c["redeemed"]:
+            why.append("code-redeemed-twice")
+        if t > c["t"] + flow:
+            why.append("code-expired")
+        if op.get("client_id") != spec["client_id"]:
+            why.append("client_id-mismatch")
+        v = op.get("verifier")
+        digest = base64.urlsafe_b64encode(hashlib.sha256((v or "").encode()).digest()).decode().rstrip("=")
+        if v is None or spec["method"] != "S256" or digest != spec["challenge"]:
+            why.append("pkce-verifier-mismatch")
+        if op.get("subject") not in self.cfg["subjects"]:
+            why.append("unknown-subject")
+        if (op.get("dpop") or {}).get("kind") == "invalid":
+            why.append("invalid-dpop")
+        for wname in sorted(set(why)):
+            self.bad("code-token-issued-despite:" + wname, f"op {i}: 200 for a token request with defect {wname} ({op.get('defects')})",
+                     [c["session"]["i"]] + c["session"].get("trail", []) + [i])
+        c["redeemed"] = True
+        name = line.split()[1].split("=", 1)[1]
+        op["_session"] = spec
+        self.tokens[name] = (i, op, "code")
+
     def expected_std(self, name):
         i, op, flow = self.tokens[name]
         t = op["t"]
@@ -184,10 +290,12 @@ class Oracle:
             self.judge_s2s(i, op, line)
         elif kind == "introspect":
             self.judge_introspect(i, op, line)
+        elif kind == "seed":
+            self.sessions[op["state"]] = {"spec": op["session"], "t": op["t"], "fulfilled": [], "nonces": {op["nonce"]: op["t"]}, "i": i}
+        elif kind == "authresp":
+            self.judge_authresp(i, op, line)
         elif kind == "code":
-            if line.startswith("200 "):
-                name = line.split()[1].split("=", 1)[1]
-                self.tokens[name] = (i, op, "code")
+            self.judge_code(i, op, line)
 
 
 def world_slices(ops):
@@ -248,16 +356,7 @@ def run(ctx):
 
     # ---- direct property oracle on the implementation's own outputs
     orc = Oracle(facts)
-    sessions = {}
     for i, (op, line) in enumerate(zip(ops, impl)):
-        if op.get("op") == "cfg":
-            sessions = {}
-        if op.get("op") == "seed":
-            sessions[op["state"]] = op["session"]
-        if op.get("op") == "authresp" and line.startswith("200 code="):
-            sessions[line.split()[1].split("=", 1)[1]] = sessions.get(op.get("state"))
-        if op.get("op") == "code":
-            op["_session"] = sessions.get(op.get("code"))
         orc.feed(i, op, line)
     slices = world_slices(ops)
 
